@@ -5,6 +5,7 @@ import io
 import itertools
 import os
 import shutil
+import sys
 import tempfile
 import threading
 import urllib.error
@@ -60,10 +61,10 @@ PLACEHOLDER_US = R.local_us(1990, 1, 1)
 STATS = None
 
 
-def profile_bytes(server, year, variant=0):
+def profile_bytes(server, year, variant=0, sonrs_status=None):
     # the sign-on response carries a DTPROFUP of its own that differs from the profile's (odd years: later, even: earlier)
     so = F.dt_tag(year + 40, 6, 15) if year % 2 else F.dt_tag(max(1995, year - 40), 6, 15)
-    return F.profile_response({"BANKMSGSET": server["url"]}, F.dt_tag(year), code=0, extra_finame="Bank " + "x" * (7 * variant) + str(year), sonrs_dtprofup=so)
+    return F.profile_response({"BANKMSGSET": server["url"]}, F.dt_tag(year), code=0, extra_finame="Bank " + "x" * (7 * variant) + str(year), sonrs_dtprofup=so, sonrs_status=sonrs_status)
 
 
 def new_client(server):
@@ -149,7 +150,7 @@ class CacheMachine(RuleBasedStateMachine):
         if STATS is not None:
             STATS.fail(key, list(self.history), f"step {self.history[-1]}: {detail}")
 
-    @rule(si=st.sampled_from([0, 0, 0, 0, 0, 1, 2, 3, 4, 4, 5, 6]), who=st.sampled_from(["same", "same", "restart", "second", "other", "other", "override", "scan"]), behaviour=st.sampled_from(["newer", "newer", "same", "older", "uptodate", "uptodate", "errstatus", "garbage", "transport"]))
+    @rule(si=st.sampled_from([0, 0, 0, 0, 0, 1, 2, 3, 4, 4, 5, 6]), who=st.sampled_from(["same", "same", "restart", "second", "other", "other", "override", "scan"]), behaviour=st.sampled_from(["newer", "newer", "same", "older", "uptodate", "uptodate", "errstatus", "garbage", "transport", "newer-signon-status"]))
     def request(self, si, who, behaviour):
         if who == "scan":
             return _scan_rule(self, si, {"same": "uptodate", "errstatus": "garbage", "transport": "garbage"}.get(behaviour, behaviour))
@@ -189,10 +190,18 @@ class CacheMachine(RuleBasedStateMachine):
                 call_kw = {"url": server["url"]}
                 self.flags.add("asked through another server's client with url= for this call")
         served = None
+        signon_status = None
+        if behaviour == "newer-signon-status":
+            # a complete, newer profile in a successful profile transaction - while the sign-on response carries a status of
+            # its own (the anonymous sign-on may well be answered with a warning or an error code).  Whatever the client
+            # makes of it: a call that succeeds returns the newest profile, a call that fails leaves the cache as it was.
+            behaviour = "newer"
+            signon_status = [(15500, "ERROR"), (2000, "ERROR"), (15000, "WARN"), (0, "WARN")][len(self.history) % 4]
+            self.flags.add("newer profile under a non-zero sign-on status")
         if behaviour == "newer":
             y = self.maxyear.get(si, server["base"]) + 1
             self.maxyear[si] = y
-            served = profile_bytes(server, y, variant=y % 3)
+            served = profile_bytes(server, y, variant=y % 3, sonrs_status=signon_status)
             self.plan = ("ok", served)
         elif behaviour == "same":
             served = profile_bytes(server, held[1], variant=(held[1] % 3) + 1)
@@ -254,7 +263,7 @@ class CacheMachine(RuleBasedStateMachine):
                     self.fail("older-profile-returned", "an older profile replaced the newer one held")
                 else:
                     self.fail(f"wrong-profile-returned/{behaviour}", f"returned {len(result or b'')} bytes, newest delivered has {len(newest[0]) if newest else None}")
-        elif behaviour in ("newer", "same", "uptodate"):
+        elif behaviour in ("newer", "same", "uptodate") and signon_status is None:
             key = f"valid-reply-failed/{behaviour}"
             if any(j != si and (SERVERS[j]["org"], SERVERS[j]["fid"]) == (server["org"], server["fid"]) for j in self.held):
                 key = "cross-server/valid-reply-failed"
@@ -624,6 +633,8 @@ def check_case(case):
         return crash_failures(crash_run(case["pre"], case["k"], case["variant"]))
     if kind == "schedule":
         return schedule_failures(schedule_run(case["schedule"]))
+    if kind == "restart":
+        return restart_failures(case["si"], case["years"], restart_run(case["si"], case["years"]))
     raise H.HarnessError(case)
 
 
@@ -709,6 +720,7 @@ def run(ctx):
     steps = ctx.scale(8, 12)
     ctx.pmap(_machine_worker, [(n, steps, ctx.sub_seed("m", i), servers) for i in range(16)])
     ctx.pmap(_crash_worker, [(pre, variant) for pre in (False, True) for variant in ("plain", "flushed", "partial")])
+    ctx.pmap(_restart_worker, [(0, [2001, 2001, 2002]), (2, [2601, 2601, 2602]), (4, [3201, 3202, 3202]), (6, [3801, 3801, 3801])], ambient=False)
     # schedules: probe the number of gates per thread with one serial run, then enumerate
     H.setup_path()
     probe = schedule_run([0] * 50)
@@ -721,3 +733,84 @@ def run(ctx):
         scheds = scheds[::step]
     ctx.pmap(_schedule_worker, [scheds[i::16] for i in range(16)])
     ctx.note("schedules", {"gates_thread0": n0, "gates_thread1": n1, "all_interleavings": total, "explored": len(scheds), "exhaustive": len(scheds) == total})
+
+
+# ---------------------------------------------------------------------------
+# real restarts: one interpreter per run, nothing pinned that a user's interpreter would not pin either
+# ---------------------------------------------------------------------------
+def _restart_child():
+    """python -m pbt.checks.c15 --restart-child <datadir> <server index> <year the server's newest profile has>"""
+    import hashlib
+    import json
+
+    H.setup_path()
+    import ofxtools.config as cfg
+
+    datadir, si, year = Path(sys.argv[2]), int(sys.argv[3]), int(sys.argv[4])
+    cfg.DATADIR = datadir
+    server = SERVERS[si]
+    state = {"newest": (profile_bytes(server, year, year % 3), year)}
+    out = {}
+    with F.FakeNet(lambda rec: well_behaved(state)(rec)) as net:
+        try:
+            got = new_client(server).request_profile().read()
+            out["result"] = hashlib.sha1(got).hexdigest()
+        except Exception as e:
+            out["raised"] = repr(e)[:300]
+        out["asked"] = [request_dtprofup(r) for r in net.log]
+    out["newest"] = hashlib.sha1(state["newest"][0]).hexdigest()
+    out["files"] = {n: hashlib.sha1(d).hexdigest() for n, d in profrs_files(datadir).items()}
+    print(json.dumps(out))
+
+
+def restart_run(si, years):
+    """-> list of per-run dicts; each run is a fresh interpreter with its own (random) hash seed."""
+    import json
+    import subprocess
+
+    tmp = Path(tempfile.mkdtemp(prefix="verif_c15r_"))
+    try:
+        runs = []
+        for y in years:
+            env = dict(os.environ, PYTHONHASHSEED="random", PYTHONPATH=str(H.VERIF))
+            p = subprocess.run([sys.executable, "-m", "pbt.checks.c15", "--restart-child", str(tmp), str(si), str(y)], capture_output=True, text=True, env=env, cwd=str(H.VERIF), timeout=300)
+            if p.returncode != 0 or not p.stdout.strip():
+                raise H.HarnessError(f"restart child failed: {p.stderr[-400:]}")
+            runs.append(json.loads(p.stdout.strip().splitlines()[-1]))
+        return runs
+    finally:
+        shutil.rmtree(tmp, ignore_errors=True)
+
+
+def restart_failures(si, years, runs):
+    out = []
+    held = None
+    for y, r in zip(years, runs):
+        want = year_us(held) if held is not None else PLACEHOLDER_US
+        if r.get("asked") != [want]:
+            out.append(("asked-with-wrong-date/after-a-real-restart", f"run for year {y}: asked {r.get('asked')}, the profile held since the previous run has {want}"))
+        if "raised" in r:
+            out.append(("valid-reply-failed/after-a-real-restart", f"run for year {y}: {r['raised']}"))
+        elif r.get("result") != r.get("newest"):
+            out.append(("wrong-profile-returned/after-a-real-restart", f"run for year {y}"))
+        if len(r.get("files", {})) != 1 or r.get("newest") not in r["files"].values():
+            out.append(("cache-not-one-complete-newest-profile/after-a-real-restart", f"run for year {y}: files {sorted(r.get('files', {}))}"))
+        held = y if held is None or y > held else held
+    return out
+
+
+def _restart_worker(job):
+    H.setup_path()
+    s = H.Stats()
+    si, years = job
+    case = {"kind": "restart", "si": si, "years": years}
+    s.case(case, nontrivial=True, labels=["real restarts (one interpreter per run, unpinned hash seed)"])
+    for k, d in restart_failures(si, years, restart_run(si, years)):
+        s.fail(k, case, d)
+    return s
+
+
+if __name__ == "__main__":
+    if "--restart-child" in sys.argv:
+        _restart_child()
+
